@@ -257,3 +257,10 @@ func VerifHandleOutput(pipe io.ReadCloser, readyLine string) (lines []string, he
 	<-done
 	return lines, st.Health
 }
+
+// VerifProcessEnvironment runs Process.getProcessEnvironment for a synthetic process.
+func VerifProcessEnvironment(name string, replica int, global, own []string) []string {
+	conf := &types.ProcessConfig{Name: name, ReplicaName: name, ReplicaNum: replica, Environment: own}
+	p := &Process{procConf: conf, globalEnv: global}
+	return p.getProcessEnvironment()
+}
